@@ -282,6 +282,19 @@ def r2_3(ctx):
         elif isinstance(n, ast.AugAssign) and fi.name == "get_next_uid_vv":
             if isinstance(n.op, ast.Add) and isinstance(n.value, ast.Constant) and isinstance(n.value.value, int) and n.value.value > 0:
                 form = "global counter += positive constant"
+        if form is None and isinstance(n, ast.Assign) and fi.name == "get_next_uid_vv":
+            # compute-then-store: `nxt = self.uid_vv + 1; self.uid_vv = nxt`
+            v = n.value
+            if isinstance(v, ast.Name):
+                defs = [a for a in ast.walk(fi.node) if isinstance(a, ast.Assign) and len(a.targets) == 1 and isinstance(a.targets[0], ast.Name) and a.targets[0].id == v.id]
+                if len(defs) == 1 and defs[0].lineno < n.lineno:
+                    v = defs[0].value
+            if isinstance(v, ast.BinOp) and isinstance(v.op, ast.Add):
+                l, r = v.left, v.right
+                if isinstance(l, ast.Constant):
+                    l, r = r, l
+                if norm(l) == norm(n.targets[0]) and isinstance(r, ast.Constant) and isinstance(r.value, int) and not isinstance(r.value, bool) and r.value > 0:
+                    form = "global counter = itself + positive constant"
         if form:
             ctx.ok("R2.3", where(fi), f"{norm(n, 70)}  [{form}]")
         else:
